@@ -41,13 +41,39 @@ theorem esCompute_raises_legacy (cfg : Cfg) (hc : cfg.esFailureFinishesOp = fals
   unfold esCompute
   simp [hc]
 
-/-- … and an ACTIVE record answers every later check without consulting the algorithm, whatever
-    the algorithm would say (`es` arbitrary): the study's early stopping is wedged. -/
-theorem earlyStop_active_record_is_returned (cfg : Cfg) (st : Study) (id : Nat) (t : Trial) (o : EsOp)
+/-- … and (pinned commit: `esResumesActive = false`) an ACTIVE record answers every later check without
+    consulting the algorithm, whatever the algorithm would say (`es` arbitrary): the study's early stopping
+    is wedged. -/
+theorem earlyStop_active_record_is_returned (cfg : Cfg) (hra : cfg.esResumesActive = false) (st : Study) (id : Nat)
+    (t : Trial) (o : EsOp)
     (ht : st.findTrial id = some t) (hm : t.state.mutable = true) (ho : esOpOf st id = some o)
     (hact : o.active = true) (es : EsOutcome) :
     earlyStopBody cfg st id es = (.earlyStop o.shouldStop, st) := by
   unfold earlyStopBody
-  simp [ht, hm, ho, hact]
+  simp [ht, hm, ho, hact, esReturnsStored, hra]
+
+/-- when is the stored answer NOT returned: the repaired service recomputes an ACTIVE record and a stale one -/
+theorem esReturnsStored_eq_false_iff (cfg : Cfg) (hra : cfg.esResumesActive = true) (o : EsOp) :
+    esReturnsStored cfg o = false ↔ (o.active = true ∨ cfg.esRecycle = true) := by
+  unfold esReturnsStored
+  rw [hra]
+  cases o.active <;> cases cfg.esRecycle <;> simp
+
+/-- the body of a check of a mutable trial with a stored record that is not answered from the record -/
+theorem earlyStopBody_recomputes (cfg : Cfg) (st : Study) (id : Nat) (t : Trial) (o : EsOp)
+    (ht : st.findTrial id = some t) (hm : t.state.mutable = true) (ho : esOpOf st id = some o)
+    (hns : esReturnsStored cfg o = false) (es : EsOutcome) :
+    earlyStopBody cfg st id es = esCompute cfg (st.putEsOp { o with active := true, shouldStop := false }) id es := by
+  unfold earlyStopBody
+  simp [ht, hm, ho, hns]
+
+/-- **the repaired service recomputes an abandoned (ACTIVE) record**, whatever the recycle period -/
+theorem earlyStop_active_record_is_recomputed (cfg : Cfg) (hra : cfg.esResumesActive = true) (st : Study) (id : Nat)
+    (t : Trial) (o : EsOp)
+    (ht : st.findTrial id = some t) (hm : t.state.mutable = true) (ho : esOpOf st id = some o)
+    (hact : o.active = true) (es : EsOutcome) :
+    earlyStopBody cfg st id es = esCompute cfg (st.putEsOp { o with active := true, shouldStop := false }) id es :=
+  earlyStopBody_recomputes cfg st id t o ht hm ho
+    ((esReturnsStored_eq_false_iff cfg hra o).mpr (Or.inl hact)) es
 
 end VizierModel.Svc
